@@ -91,6 +91,62 @@ def run(ctx):
             ex = e.call.args[0] if e.call.args else None
             ok = isinstance(ex, ast.Name) and ex.id == "filename"
             ctx.ob("C07.write", dt, e.call, ok, "" if ok else "the file written is not exactly `filename`")
+            # the file is REPLACED by the concatenation of the node texts: a truncating text mode, one write() of that
+            # concatenation on the handle and nothing else (no seek / truncate / second write: offsets in a text file
+            # are bytes, lengths of str are characters)
+            from ..effects import open_mode_arg
+            from ..fold import try_fold
+
+            mode = try_fold(open_mode_arg(e.call)) if open_mode_arg(e.call) is not None else "r"
+            ok = isinstance(mode, str) and set(mode) <= set("wt") and "w" in mode
+            ctx.ob(
+                "C07.write",
+                dt,
+                "open(filename, {!r}) replaces the file".format(mode),
+                ok,
+                "" if ok else "the file is opened with mode {!r}: the old content is not discarded before the new text is written "
+                "(whatever trims the remainder afterwards works in bytes, the text is measured in characters)".format(mode),
+                line=e.call.lineno,
+            )
+            handle = None
+            for it in w.items:
+                if it.context_expr is e.call and isinstance(it.optional_vars, ast.Name):
+                    handle = it.optional_vars.id
+            ctx.need(handle is not None, "the write in doctrans() no longer binds the file handle with `as`")
+            hcalls = [c for b in w.body for c in ast.walk(b) if isinstance(c, ast.Call) and isinstance(c.func, ast.Attribute) and isinstance(c.func.value, ast.Name) and c.func.value.id == handle]
+            ok = len(hcalls) == 1 and hcalls[0].func.attr == "write" and len(hcalls[0].args) == 1
+            ctx.ob(
+                "C07.write",
+                dt,
+                "the handle is used for exactly one write()",
+                ok,
+                "" if ok else "the handle is used for {}: the file is no longer simply replaced by the new text".format([c.func.attr for c in hcalls]),
+                line=w.lineno,
+            )
+            if ok:
+                from ..defuse import local_defs
+
+                v = hcalls[0].args[0]
+                if isinstance(v, ast.Name):
+                    ds = local_defs(dt).get(v.id, [])
+                    v = ds[0] if len(ds) == 1 else v
+                txt = norm(v)
+                ok2 = (
+                    isinstance(v, ast.Call)
+                    and isinstance(v.func, ast.Attribute)
+                    and v.func.attr == "join"
+                    and isinstance(v.func.value, ast.Constant)
+                    and v.func.value.value == ""
+                    and "attrgetter('value')" in txt
+                )
+                ctx.ob(
+                    "C07.write",
+                    dt,
+                    "what is written is ''.join of the nodes' .value",
+                    ok2,
+                    "" if ok2 else "the text written is `{}`, not the plain concatenation of the CST nodes' values".format(short(v, 70)),
+                    line=hcalls[0].lineno,
+                )
 
     ctx.section(_sec_write)
 
